@@ -87,7 +87,7 @@ def run(c):
         base[mod] = open(os.path.join(os.path.dirname(os.path.dirname(os.path.abspath(__file__))), "spec", mod + ".cfg")).read()
     pinned = {}
 
-    def model(mod, name, workers=2, invariants=None, **consts):
+    def model(mod, name, workers=2, invariants=None, coverage=False, **consts):
         txt = base[mod]
         for k, v in consts.items():
             txt, n = re.subn(r"(?m)^(\s*%s\s*=\s*).*$" % re.escape(k), lambda m: m.group(1) + str(v), txt)
@@ -96,7 +96,7 @@ def run(c):
             txt = re.sub(r"(?m)^INVARIANTS.*$", "INVARIANTS " + invariants, txt)
         p = c.path("%s-%s.cfg" % (mod, name))
         open(p, "w").write(txt)
-        r = c.tlc_model(mod, cfg=p, workers=workers, timeout=1700)
+        r = c.tlc_model(mod, cfg=p, workers=workers, timeout=1700, coverage=coverage)
         r["name"] = name
         return r
 
@@ -105,23 +105,24 @@ def run(c):
     RSINV = "BucketInv SortedInv NoOOBInv SplitInv EmptyInv SanityInv RowSumInv TruncSumInv"
     AGINV = "TypeInv PartitionInv FlagsInv SymInv"
     jobs = [
-        # transcriptions of the code as it is meant to be (repaired variants): full invariants
-        lambda: model("AggregatesModel", "di3", N=3, Modes=ALL),
-        lambda: model("AggregatesModel", "di4", N=4, Modes=NOSIGN, invariants=AGINV, workers=3),
-        lambda: model("AggregatesModel", "sym5", N=5, Sym="TRUE", Modes=NOSIGN, invariants=AGINV),
-        lambda: model("BlockLiftModel", "kron3x2", N=3, BS=2, Modes="{0, 7, 13, 18}", workers=3),
-        lambda: model("BlockLiftModel", "kron2x3", N=2, BS=3, Modes=NOSIGN),
-        lambda: model("SmoothedModel", "di3", N=3, OmegaCodes="{12, 23, 11}", workers=3),
-        lambda: model("SmoothedModel", "di4", N=4, Modes="{7, 9, 22}" if not th else M4, OmegaCodes="{23}", workers=3),
-        lambda: model("SmoothedModel", "kron3x2", N=3, BS=2, Modes="{1, 7, 9, 22}", OmegaCodes="{12}", EpsDens="{4}"),
-        lambda: model("RugeStubenModel", "di3", N=3, Modes=ALL, invariants=RSINV + " RunInv", workers=3),
-        lambda: model("RugeStubenModel", "di4", N=4, Modes="{7, 22}" if not th else M4, invariants=RSINV, workers=3),
-        lambda: model("RugeStubenModel", "sym5", N=5, Sym="TRUE", Modes="{7, 15, 21, 22}" if not th else ALL, invariants=RSINV, workers=3),
+        # transcriptions of the code as it is meant to be (repaired variants); longest first
         lambda: model("RugeStubenModel", "sym6", N=6, Sym="TRUE", Modes="{21}", EpsDens="{4}", TruncDens="{2}", invariants=RSINV, workers=3),
+        lambda: model("RugeStubenModel", "di4", N=4, Modes="{22}" if not th else M4, invariants=RSINV, workers=3),
+        lambda: model("RugeStubenModel", "sym5", N=5, Sym="TRUE", Modes="{15, 21, 22}" if not th else ALL, invariants=RSINV, workers=3),
+        lambda: model("SmoothedModel", "di4", N=4, Modes="{7, 22}" if not th else M4, OmegaCodes="{23}", workers=3),
+        lambda: model("AggregatesModel", "di4", N=4, Modes=NOSIGN, invariants=AGINV, workers=2),
+        lambda: model("RugeStubenModel", "di3", N=3, Modes=ALL, invariants=RSINV + " RunInv", workers=2),
+        lambda: model("SmoothedModel", "di3", N=3, OmegaCodes="{12, 23, 11}", workers=2),
+        lambda: model("SmoothedModel", "kron3x2", N=3, BS=2, Modes="{7, 22}", OmegaCodes="{12}", EpsDens="{4}"),
+        lambda: model("BlockLiftModel", "kron3x2", N=3, BS=2, Modes="{0, 7, 13, 18}", workers=2),
+        lambda: model("AggregatesModel", "sym5", N=5, Sym="TRUE", Modes=NOSIGN, invariants=AGINV),
         # the code as pinned (known defects): TLC stops at the first counter-example
-        lambda: pinned.__setitem__("tie", model("RugeStubenModel", "pinned-tie", N=4, Sym="TRUE", Modes=ALL, TieBug="TRUE", invariants="RowSumInv")),
-        lambda: pinned.__setitem__("lift", model("BlockLiftModel", "pinned-lift", N=3, BS=2, LiftBug="TRUE", invariants="LiftInv")),
-        lambda: pinned.__setitem__("uninit", model("RugeStubenModel", "pinned-uninit", N=4, Sym="TRUE", Modes="{4, 5, 10, 23}", Uninit="TRUE", invariants="NoOOBInv")),
+        lambda: pinned.__setitem__("tie", model("RugeStubenModel", "pinned-tie", N=4, Sym="TRUE", Modes="{19, 21}", TieBug="TRUE", invariants="RowSumInv")),
+        lambda: pinned.__setitem__("lift", model("BlockLiftModel", "pinned-lift", N=3, BS=2, Modes="{0}", LiftBug="TRUE", invariants="LiftInv")),
+        lambda: pinned.__setitem__("uninit", model("RugeStubenModel", "pinned-uninit", N=4, Sym="TRUE", Modes="{4, 5}", Uninit="TRUE", invariants="NoOOBInv")),
+        # small runs with TLC's coverage statistics (vacuity control: an action that is never taken is reported)
+        lambda: model("AggregatesModel", "di3", N=3, Modes=ALL, coverage=True),
+        lambda: model("BlockLiftModel", "kron2x3", N=2, BS=3, Modes=NOSIGN, coverage=True),
     ]
     if th:
         jobs += [
